@@ -7,7 +7,7 @@ pub const T: usize = 2; // traced cells per node
 pub const S: usize = 3; // cells per node (index T = untraced cell)
 pub const MAXV: usize = 4;
 pub const MAXW: usize = 3;
-pub const MAXC: usize = 3;
+pub const MAXC: usize = 6;
 pub const MAXOBJ: usize = 8;
 
 #[derive(Clone, Copy, PartialEq, Eq, Hash, Debug, PartialOrd, Ord)]
